@@ -3,7 +3,8 @@ from __future__ import annotations
 
 from . import exprs as X
 from .props_core import depth_for, tree_with_leaf_filters
-from .family import Check
+from .common import cbool, civl
+from .family import Check, Family
 from .props_core import ASSUME
 from .slicefam import ExprFamily
 
@@ -85,6 +86,64 @@ def gen_filters(g, rng, tier, n):
         yield dict(tree=t, q=[(None, None, False) if rng.random() < 0.5 else (rng.choice([-1, 0, 50]), rng.choice([None, 200, 10 ** 6]), False)])
 
 
+def gen_filters_derived(g, rng, tier, n):
+    """A filter applied to an intersection of stored timelines, sliced with a window that cuts through
+    events: the predicate must see the intersection's fragment (computed from the full stored events),
+    not its clip to the window.  (A filter on a DIFFERENCE judges a window-dependent fragment — the
+    subtractors are only fetched inside the window — which the properties exclude by design.)"""
+    for k in range(n):
+        g.next_id = 1
+        l, r = g.leaf("disjoint", rich=True), g.leaf("disjoint", rich=rng.random() < 0.7)
+        inner = {"op": "and", "l": l, "r": r}
+        p = rng.choice([["dur", 1], ["dur", 1], ["start"], ["end"]])
+        f = {"k": "cmp", "p": p, "c": rng.choice(["ge", "le", "gt", "lt", "eq", "ne"]), "v": ["int", rng.randrange(0, 8)]}
+        t = {"op": "filt", "s": inner, "f": f}
+        a = rng.randrange(-1, 7)
+        b = rng.randrange(a + 1, 9)
+        yield dict(tree=t, q=[(a, b, rng.random() < 0.2)])
+
+
+class ApplyFamily(Family):
+    """filter.apply(event) on single events, including zero-length and unbounded ones"""
+    name = "filter_apply"
+    header = "From CG Require Import Harness.MoreChk.\n"
+    case_type = "acase"
+    corr = "corr_apply"
+    oracle = "corr_apply"        # the model of feval IS the Boolean reading of the filter tree (Proofs/Filter.v)
+    n_quick, n_thorough = 2500, 30000
+    rule = ("random filter trees x single events (zero-length, unbounded, durations at k*scale-1, k*scale, k*scale+1); "
+            "non-trivial = the filter tree has at least one combinator or the event is zero-length/unbounded")
+
+    def gen(self, rng, tier, n):
+        g = X.Gen(rng)
+        for _ in range(n):
+            scale = rng.choice([1, 60, 3600, 86400])
+            s = rng.choice([None, 0, 1, 7, 100])
+            kk = rng.choice([0, 0, 1, 2, 3])
+            d = max(0, kk * scale + rng.choice([-1, 0, 0, 1]))
+            e = None if rng.random() < 0.12 else (0 if s is None else s) + d
+            pid = rng.randrange(1, 40)
+            yield dict(ev=[s, e, pid], f=filt_scaled(g, rng, rng.choice([0, 1, 2]), scale))
+
+    def run_impl(self, case):
+        try:
+            ev = X.mk_event(case["ev"])
+            return [bool(X.build_filter(case["f"]).apply(ev))]
+        except (TypeError, ValueError) as ex:
+            return {"err": type(ex).__name__}
+
+    def coq_case(self, case, obs):
+        t = {"op": "stored", "evs": [case["ev"]]}
+        return f"(mkAC {X.coq_env(t)} {X.coq_filter(case['f'])} {civl(case['ev'])} {cbool(obs[0])})"
+
+    def describe(self, case):
+        return f"event={case['ev']} filter={case['f']}"
+
+    def nontrivial(self, case, obs):
+        s, e, _ = case["ev"]
+        return case["f"]["k"] in ("and", "or") or s is None or e is None or s == e
+
+
 def filt_scaled(g, rng, depth, scale):
     if depth > 0 and rng.random() < 0.35:
         return {"k": rng.choice(["and", "or"]), "fs": [filt_scaled(g, rng, depth - 1, scale) for _ in range(rng.choice([2, 3]))]}
@@ -99,5 +158,8 @@ CHECKS = {
     "C17": Check("C17", [
         ExprFamily("C17", "s", "oracle_events_strong", {"D1": "c_noD1", "D2": "c_noD2", "D3": "c_noD3"}, gen_transforms, 2000, 30000, name="buffer-slices"),
         ExprFamily("C17", "f", "oracle_mw", {}, gen_mw, 2000, 30000, name="merge_within-fetches")], ASSUME),
-    "C18": Check("C18", [ExprFamily("C18", "s", "oracle_events_strong", {"D1": "c_noD1", "D2": "c_noD2"}, gen_filters, 3000, 40000)], ASSUME),
+    "C18": Check("C18", [
+        ExprFamily("C18", "s", "oracle_events_strong", {"D1": "c_noD1", "D2": "c_noD2"}, gen_filters, 2500, 40000, name="filtered_slices"),
+        ExprFamily("C18", "s", "oracle_events_strong", {"D1": "c_noD1", "D2": "c_noD2"}, gen_filters_derived, 800, 10000, name="filtered_derived"),
+        ApplyFamily("C18")], ASSUME),
 }
